@@ -95,12 +95,18 @@ impl Parser {
                 return self.parse_impl(cursor, payload);
             }
 
+            // If we're resuming a frame whose start was consumed by a previous call, then the
+            // first byte of this cursor has not been examined as a possible start of frame yet
+            let resumed = !matches!(self.state, ParseState::FindSync1);
+
             let res = cursor.transaction(|cur| self.parse_impl(cur, payload));
 
             match res {
                 Ok(x) => return Ok(x),
                 Err(_) => {
-                    let _ = cursor.read_u8(); // advance one byte
+                    if !resumed {
+                        let _ = cursor.read_u8(); // advance one byte
+                    }
                     self.reset();
                     // goto next iteration
                 }
